@@ -207,4 +207,60 @@ VARIANTS = [
             "            writer.write(se.U16, round(influence * 0xFFff), ctx=ctx)\n",
      "new": "        for joint_idx, influence in vals:\n            raw_weight = round(influence * 0xFFff)\n"
             "            writer.write(se.U8, joint_idx)\n            writer.write(se.U16, raw_weight, ctx=ctx)\n"},
+
+    # round 8: helpers handed the components, coordinate constructors
+    {'name': 'R3 pod form of vector coordinates rounded in a module-level helper',
+     'expect': 'C10.R3',
+     'edits': [{'file': 'hippolyzer/lib/base/serialization.py',
+                'old': 'class TupleCoord(SerializableBase):\n    ELEM_SPEC: SerializablePrimitive\n',
+                'new': 'def _display_tuple(coord):\n'
+                       '    return tuple(round(c, 6) for c in coord)\n'
+                       '\n'
+                       '\n'
+                       'class TupleCoord(SerializableBase):\n'
+                       '    ELEM_SPEC: SerializablePrimitive\n'},
+               {'file': 'hippolyzer/lib/base/serialization.py',
+                'old': '        if self.need_pod(reader):\n            return tuple(val)\n',
+                'new': '        if self.need_pod(reader):\n            return _display_tuple(val)\n'}]},
+    {'name': 'P R3 pod tuple built by a helper that only re-shapes',
+     'expect': 'silent',
+     'edits': [{'file': 'hippolyzer/lib/base/serialization.py',
+                'old': 'class TupleCoord(SerializableBase):\n    ELEM_SPEC: SerializablePrimitive\n',
+                'new': 'def _plain_tuple(coord):\n'
+                       '    return tuple(c for c in coord)\n'
+                       '\n'
+                       '\n'
+                       'class TupleCoord(SerializableBase):\n'
+                       '    ELEM_SPEC: SerializablePrimitive\n'},
+               {'file': 'hippolyzer/lib/base/serialization.py',
+                'old': '        if self.need_pod(reader):\n            return tuple(val)\n',
+                'new': '        if self.need_pod(reader):\n            return _plain_tuple(val)\n'}]},
+    {'name': 'R3 Vector3 constructor defaults falsy components',
+     'file': 'hippolyzer/lib/base/datatypes.py',
+     'expect': 'C10.R3',
+     'old': '        self.X = float(X)\n'
+            '        self.Y = float(Y)\n'
+            '        self.Z = float(Z)\n'
+            '\n'
+            '    def data(self, wanted_components=None):\n'
+            '        return self.X, self.Y, self.Z\n',
+     'new': '        self.X = float(X) if X else 0.0\n'
+            '        self.Y = float(Y) if Y else 0.0\n'
+            '        self.Z = float(Z) if Z else 0.0\n'
+            '\n'
+            '    def data(self, wanted_components=None):\n'
+            '        return self.X, self.Y, self.Z\n'},
+    {'name': 'P R3 Vector3 constructor with one tuple assignment',
+     'file': 'hippolyzer/lib/base/datatypes.py',
+     'expect': 'silent',
+     'old': '        self.X = float(X)\n'
+            '        self.Y = float(Y)\n'
+            '        self.Z = float(Z)\n'
+            '\n'
+            '    def data(self, wanted_components=None):\n'
+            '        return self.X, self.Y, self.Z\n',
+     'new': '        self.X, self.Y, self.Z = float(X), float(Y), float(Z)\n'
+            '\n'
+            '    def data(self, wanted_components=None):\n'
+            '        return self.X, self.Y, self.Z\n'},
 ]
